@@ -263,6 +263,72 @@ pub fn check(case: &Case, p: &mut Probe) -> Check {
     Ok(())
 }
 
+/// large matrices (more than 64 rows): sparse message part, tail = staircase, a permutation matrix
+/// with a few extra ones below it (invertible, dense path with row exchanges) or a permutation
+/// matrix with one column replaced by a copy of another (singular)
+fn large_strategy(_t: Tier) -> BoxedStrategy<Case> {
+    (60usize..=140, 1usize..=70, 0..3u8, any::<u64>())
+        .prop_flat_map(|(r, k, kind, msg_seed)| {
+            (
+                Just((r, k, kind, msg_seed)),
+                Just((0..r).collect::<Vec<usize>>()).prop_shuffle(),
+                proptest::collection::vec((any::<u16>(), any::<u16>()), 0..=(3 * r)),
+                proptest::collection::vec((any::<u16>(), any::<u16>()), 0..=12),
+                (any::<u16>(), any::<u16>()),
+            )
+        })
+        .prop_map(|((r, k, kind, msg_seed), perm, h0, extra, (da, db))| {
+            let n = r + k;
+            let mut set = std::collections::BTreeSet::new();
+            for (a, b) in h0 {
+                set.insert((idx(a, r), idx(b, k)));
+            }
+            let class = match kind {
+                0 => {
+                    set.insert((0, k));
+                    for j in 1..r {
+                        set.insert((j, k + j));
+                        set.insert((j, k + j - 1));
+                    }
+                    "staircase"
+                }
+                1 => {
+                    // P * (unit lower triangular): invertible
+                    for i in 0..r {
+                        set.insert((perm[i], k + i));
+                    }
+                    for (a, b) in extra {
+                        let (i, j) = (idx(a, r), idx(b, r));
+                        if i > j {
+                            set.insert((perm[i], k + j));
+                        }
+                    }
+                    "dense-invertible"
+                }
+                _ => {
+                    for i in 0..r {
+                        set.insert((perm[i], k + i));
+                    }
+                    let (x, y) = (idx(da, r), idx(db, r));
+                    if x != y {
+                        set.retain(|e| e.1 != k + y);
+                        set.insert((perm[x], k + y));
+                    } else {
+                        set.retain(|e| e.1 != k + y);
+                    }
+                    "singular-by-construction"
+                }
+            };
+            Case { h: Mat { rows: r, cols: n, ones: set.into_iter().collect() }, class: class.to_string(), msg_seed }
+        })
+        .prop_flat_map(|c| (shuffled(Just(c.h.clone())), Just(c)))
+        .prop_map(|(h, mut c)| {
+            c.h = h;
+            c
+        })
+        .boxed()
+}
+
 /// fuzz-target body: a byte tape decoded into a matrix (r <= n) and a message seed
 pub fn fuzz_bytes(data: &[u8]) -> Check {
     let (h, salt) = mat_from_bytes(data, 12, true);
@@ -281,6 +347,14 @@ pub fn property() -> Property {
             strategy: |t| strategy(t.pick(16, 48)),
             check,
             health: &[("staircase", 0.15), ("near-staircase", 0.08), ("dense-invertible", 0.15), ("singular", 0.15), ("square", 0.05)],
+        }),
+        Box::new(Sub {
+            name: "encoder-large",
+            rule: "60..=140 rows, 1..=70 message columns, sparse message part; tail = exact staircase, a permutation matrix times a unit lower triangular one (invertible, dense path with row exchanges) or a permutation matrix with one column duplicated or removed (singular); 64 pseudo-random messages per accepted matrix; same oracle",
+            cases: |t| t.pick(1_500, 50_000),
+            strategy: large_strategy,
+            check,
+            health: &[],
         })],
         assumptions: vec!["which internal path (staircase / dense) is taken is recorded as a class, not asserted (only C06 requires the linear-time path)".into()],
     }
